@@ -11,6 +11,8 @@ from harness import gen_expr as G
 from harness.impl import H_ann, H_opt, H_PLAIN, H_tuple, SHARED_DT, V_NONE, V_OTHER, V_arr, V_tup, available
 
 SIZES = [0, 1, 2, 3, 5, 7]
+BIG_SIZES = [257, 300, 1000]
+MAX_ELEMS = 500_000   # cases with a larger array are generated again (memory)
 SPELLINGS = ["Optional", "T|None", "None|T", "Union[None,T]", "Union[T,None]"]
 NAME_POOL = ["a", "b", "c", "d", "n_k", "max_len"]
 GROUP_POOL = ["g", "bt", "a"]   # "a" is also a dimension name: sizes and group lengths live in different tables
@@ -35,7 +37,8 @@ class Ctx:
 
     def name_value(self, x: str) -> int:
         if x not in self.rho:
-            self.rho[x] = self.rnd.choice(SIZES)
+            # now and then a size beyond CPython's small-int cache (value comparisons must not be identity comparisons)
+            self.rho[x] = self.rnd.choice(BIG_SIZES) if self.rnd.random() < 0.06 else self.rnd.choice(SIZES)
         return self.rho[x]
 
 
@@ -56,7 +59,7 @@ def gen_small_expr(c: Ctx, allow_unbound: bool = False):
             v = G.den(e, c.rho)
         except (G.Undefined, G.TooBig):
             continue
-        if 0 <= v <= 12:
+        if 0 <= v <= 12 or (0 <= v <= 2100 and any(c.rho.get(x, 0) > 12 for x in G.variables(e))):
             return e, v
     return None
 
@@ -78,7 +81,7 @@ def gen_dims(c: Ctx, ndims: int, allow_marker: bool = True):
             continue
         r = rnd.random()
         if r < 0.2:
-            n = rnd.choice([1, 2, 3, 4])
+            n = rnd.choice([1, 2, 3, 4]) if rnd.random() < 0.93 else rnd.choice([257, 512])
             dims.append({"k": "lit", "n": n, "s": str(n), "sizes": [n]})
         elif r < 0.55:
             x = rnd.choice(NAME_POOL)
@@ -130,8 +133,28 @@ def gen_tensor_hint(c: Ctx, libs: list[str]):
     return h, V_arr(lib, dt, sizes)
 
 
+def _elems(case: dict) -> int:
+    m = 0
+    for it in flatten(case):
+        v = it["v"]
+        if isinstance(v, dict) and v.get("k") == "arr":
+            p = 1
+            for t in v["shape"]:
+                p *= max(int(t), 1)
+            m = max(m, p)
+    return m
+
+
 def gen_case(rnd: random.Random, libs=("np",), with_provider: float = 0.25, with_ret: float = 0.5, tuples: float = 0.25,
              optionals: float = 0.2, plain: float = 0.2) -> dict:
+    while True:
+        c = _gen_case(rnd, libs, with_provider, with_ret, tuples, optionals, plain)
+        if _elems(c) <= MAX_ELEMS:
+            return c
+
+
+def _gen_case(rnd: random.Random, libs=("np",), with_provider: float = 0.25, with_ret: float = 0.5, tuples: float = 0.25,
+              optionals: float = 0.2, plain: float = 0.2) -> dict:
     prov = None
     pnames = {}
     if rnd.random() < with_provider:
